@@ -77,5 +77,41 @@ def c18_pycode(w):
         # a raw surrogate cannot be written into Tables.lean: record it as "RAW"
         sur.append(body if body.isascii() else "RAW")
     w(f"def qnameEscSurrogates : List (List Char) := {strs(sur)}")
+    # str.isprintable() on non-ASCII code points, as maximal ranges of unprintable ones (used by repr(str))
+    import sys
+
+    rs, start = [], None
+    for cp in range(128, sys.maxunicode + 2):
+        unprintable = cp <= sys.maxunicode and not chr(cp).isprintable()
+        if unprintable and start is None:
+            start = cp
+        if not unprintable and start is not None:
+            rs.append((start, cp - 1))
+            start = None
+    w("def unprintableRanges : List (Nat × Nat) := [" + ", ".join(f"({a}, {b})" for a, b in rs) + "]")
+    # repr() of a few strings and bytes, to pin the model's quoting and escaping to the interpreter
+    sprobes = ["", "a", "a'b", 'a"b', "a'b\"c", "\\", "\t\n\r", "\x00\x1f\x7f", "\x80\xa0\xad", "\xe9\u20ac", "\u2028\ufeff", "\U0001f600", "\U000e0001"]
+    w(f"def strReprProbes : List (List Char × List Char) := [" + ", ".join(f"({chars(x)}, {chars(repr(x))})" for x in sprobes) + "]")
+    bprobes = [b"", b"a", b"a'b", b'a"b', b"a'b\"c", b"\\", b"\t\n\r", b"\x00\x1f\x7f\x80\xff"]
+    w("def bytesReprProbes : List (List Nat × List Char) := [" + ", ".join(f"({nats(list(x))}, {chars(repr(x))})" for x in bprobes) + "]")
+    # how many brackets may be open at once before the tokenizer gives up ("too many nested parentheses")
+    def compiles(n):
+        try:
+            compile("[" * n + "1" + "]" * n, "<c18-nesting-probe>", "eval")
+            return True
+        except (SyntaxError, MemoryError, RecursionError):
+            return False
+
+    lo, hi = 1, 100000
+    while lo < hi:
+        mid = (lo + hi + 1) // 2
+        if compiles(mid):
+            lo = mid
+        else:
+            hi = mid - 1
+    w(f"def parserMaxNesting : Nat := {lo}")
+    import keyword
+
+    w(f"def pyKeywords : List (List Char) := {strs(keyword.kwlist)}")
     w(f"def builtinNames : List (List Char) := {strs(sorted(dir(builtins)))}")
     w("")
